@@ -492,6 +492,11 @@ func runKh(vals [][]string, nf int, tag string) {
 		}
 		keys = append(keys, proj.Project(res))
 	}
+	emitKh(keys, proj, tag)
+}
+
+// emitKh prints case/obs/sobs for the header tree of real keys of one projection
+func emitKh(keys []benchproc.Key, proj *benchproc.Projection, tag string) {
 	kh := benchproc.NewKeyHeader(keys)
 	// the field values as the real keys report them
 	fields := proj.FlattenedFields()
@@ -545,6 +550,42 @@ func runKh(vals [][]string, nf int, tag string) {
 	id++
 }
 
+// mixedProjs: column projections that mix the `.config` GROUP with explicit keys, in both orders and
+// with the group between two explicit keys: the storage order of a key's values (allocation order of
+// the fields) then differs from the flattened field order.
+var mixedProjs = []string{".config,/impl", "/impl,.config", "/a,.config,/impl", ".config,/impl,/a", "/impl,/a,.config"}
+
+// mixedKeys builds real keys for one of mixedProjs from results whose file-config keys are
+// discovered at different times (later results bring config keys the earlier ones did not have).
+func mixedKeys(r *hx.Rand, spec string) ([]benchproc.Key, *benchproc.Projection) {
+	var pp benchproc.ProjectionParser
+	proj, err := pp.Parse(spec, nil)
+	if err != nil {
+		panic(err)
+	}
+	nk := 2 + r.Intn(7)
+	cfgKeys := []string{"goos", "goarch", "pkg"}
+	var keys []benchproc.Key
+	for i := 0; i < nk; i++ {
+		name := fmt.Sprintf("X/impl=%s/a=%s", hx.Pick(r, []string{"a", "b", "c"}), hx.Pick(r, []string{"1", "2"}))
+		res := &benchfmt.Result{Name: benchfmt.Name(name)}
+		ncfg := 1 + r.Intn(3)
+		if i < nk/2 {
+			ncfg = 1 // the later config keys are discovered late
+		}
+		for c := 0; c < ncfg; c++ {
+			res.Config = append(res.Config, benchfmt.Config{Key: cfgKeys[c],
+				Value: []byte(hx.Pick(r, [][]string{{"linux", "darwin"}, {"amd64", "arm64"}, {"p", "q"}}[c])), File: true})
+		}
+		k := proj.Project(res)
+		if i > 0 && r.Chance(1, 3) {
+			k = keys[len(keys)-1] // adjacent equal keys are legal input for a header
+		}
+		keys = append(keys, k)
+	}
+	return keys, proj
+}
+
 func khCases(r *hx.Rand) {
 	// the example of the doc comment and repeated values in non-adjacent positions
 	runKh([][]string{{"1", "1", "1"}, {"1", "1", "2"}, {"2", "2", "2"}, {"2", "3", "3"}}, 3, "multi")
@@ -557,6 +598,12 @@ func khCases(r *hx.Rand) {
 	khNum = []bool{true, false}
 	runKh([][]string{{"x", "a"}, {"y", "a"}, {"go1.2", "b"}, {"go1.20", "b"}}, 2, "keys+multi+numtie")
 	khNum = nil
+	// C16-Q: the .config group before / after / between explicit keys
+	for i := 0; i < hx.N(200, 4000); i++ {
+		spec := mixedProjs[i%len(mixedProjs)]
+		keys, proj := mixedKeys(r, spec)
+		emitKh(keys, proj, "keys+multi+cfggroup")
+	}
 	n := hx.N(800, 30000)
 	for i := 0; i < n; i++ {
 		nf := r.Intn(5)
@@ -733,13 +780,16 @@ func runTable(t *benchtab.Table, tag string) {
 }
 
 // benchstatTables drives the pipeline of cmd/benchstat/main.go in-process.
+// curTableBy is the -table projection of the runs that follow (default as in benchstat)
+var curTableBy = ".config"
+
 func benchstatTables(paths []string, rowBy, colBy string) (*benchtab.Tables, error) {
 	filter, err := benchproc.NewFilter("*")
 	if err != nil {
 		return nil, err
 	}
 	var parser benchproc.ProjectionParser
-	tableBy, _, err := parser.ParseWithUnit(".config", filter)
+	tableBy, _, err := parser.ParseWithUnit(curTableBy, filter)
 	if err != nil {
 		return nil, err
 	}
@@ -1045,6 +1095,33 @@ func treeScenario(r *hx.Rand, dir string) scenario {
 	return scenario{paths, rowBy, strings.Join(cols, ","), tags}
 }
 
+// cfgScenario: -table "" -row .name -col <mix of the .config group and explicit sub-name keys>; the
+// file-config keys are discovered at different times (a later block brings a new key).
+func cfgScenario(r *hx.Rand, dir string, spec string) scenario {
+	tags := map[string]bool{"cfggroup": true, "compare": true}
+	var sb strings.Builder
+	blocks := [][]string{{"goos: linux"}, {"goos: darwin"}, {"goos: linux", "goarch: arm64"}, {"goos: darwin", "goarch: arm64", "pkg: p"}}
+	nb := 2 + r.Intn(3)
+	impls := []string{"a", "b", "c"}[:1+r.Intn(3)]
+	for b := 0; b < nb; b++ {
+		for _, l := range blocks[b] {
+			sb.WriteString(l + "\n")
+		}
+		for _, name := range []string{"X", "Yy"}[:1+r.Intn(2)] {
+			for _, im := range impls {
+				if r.Chance(1, 6) {
+					tags["missing"] = true
+					continue
+				}
+				sampleLines(&sb, r, fmt.Sprintf("%s/impl=%s/a=%d", name, im, 1+r.Intn(2)), 1, tags)
+			}
+		}
+	}
+	p := filepath.Join(dir, "cfg.txt")
+	os.WriteFile(p, []byte(sb.String()), 0o666)
+	return scenario{[]string{p}, ".name", spec, tags}
+}
+
 func tagList(tags map[string]bool, order []string) string {
 	var tl []string
 	for _, k := range order {
@@ -1058,7 +1135,7 @@ func tagList(tags map[string]bool, order []string) string {
 	return strings.Join(tl, "+")
 }
 
-var e2eTags = []string{"warn30", "colsets", "widehdr", "numtie", "zero", "compare", "nodelta", "missing", "tables", "levels2", "levels3", "levels4", "levels5", "multirow", "units", "warn"}
+var e2eTags = []string{"cfggroup", "warn30", "colsets", "widehdr", "numtie", "zero", "compare", "nodelta", "missing", "tables", "levels2", "levels3", "levels4", "levels5", "multirow", "units", "warn"}
 
 func runScenario(sc scenario) {
 	myid := id
@@ -1172,6 +1249,14 @@ func e2eCases(r *hx.Rand) {
 		runScenario(scenario{[]string{"old=" + filepath.Join(dir, "exact-a.txt"), "new=" + filepath.Join(dir, "exact-b.txt")}, ".fullname", ".file",
 			map[string]bool{"compare": true, "warn30": true}})
 	}
+	// C16-Q witness and family: -table "" -row .name -col .config,/impl (and the other orders)
+	curTableBy = ""
+	os.WriteFile(filepath.Join(dir, "q.txt"), []byte("goos: linux\nBenchmarkX/impl=a-8 1 1 ns/op\nBenchmarkX/impl=b-8 1 2 ns/op\ngoos: darwin\nBenchmarkX/impl=a-8 1 3 ns/op\n"), 0o666)
+	runScenario(scenario{[]string{filepath.Join(dir, "q.txt")}, ".name", ".config,/impl", map[string]bool{"cfggroup": true, "compare": true}})
+	for i := 0; i < hx.N(25, 500); i++ {
+		runScenario(cfgScenario(r, dir, mixedProjs[i%len(mixedProjs)]))
+	}
+	curTableBy = ".config"
 	n := hx.N(150, 3000)
 	for i := 0; i < n; i++ {
 		if i%2 == 0 {
@@ -1214,6 +1299,21 @@ func hdrCases(r *hx.Rand) {
 	khNum = []bool{true, false}
 	run([][]string{{"1000", "p"}, {"1k", "p"}, {"1", "q"}, {"1.0", "q"}}, 2, "sec/op", "levels2+numtie")
 	khNum = nil
+	for i := 0; i < hx.N(150, 3000); i++ {
+		keys, _ := mixedKeys(r, mixedProjs[i%len(mixedProjs)])
+		t := &benchtab.Table{Unit: "sec/op", Cols: keys, Cells: map[benchtab.TableKey]*benchtab.TableCell{}, Summary: map[benchproc.Key]*benchtab.TableSummary{}, SummaryLabel: "geomean"}
+		// a table's columns are distinct keys
+		var cols []benchproc.Key
+		seen := map[benchproc.Key]bool{}
+		for _, k := range keys {
+			if !seen[k] {
+				seen[k] = true
+				cols = append(cols, k)
+			}
+		}
+		t.Cols = cols
+		runTable(t, "cfggroup")
+	}
 	n := hx.N(500, 10000)
 	for i := 0; i < n; i++ {
 		nf := 1 + r.Intn(5)
